@@ -6,7 +6,7 @@ from harness.props import c04
 
 ID = "C07"
 ENTRY = "every public query method before/after arbitrary other read-only calls"
-LEVEL = "other"
+LEVEL = "proof"
 RULE = ("random operation sequences (5..60 ops) over a pool {base index, views, views of views, copies, pickled copies}: "
         "tf (with/without range), phrase, positions, docfreq, lengths, score, warm, select, copy, pickle round trip, "
         "edismax; postings straddle cache_gt_than (0,1,3,25) and the 255-word warm threshold. Each op's output is "
